@@ -174,6 +174,7 @@ func (c CounterStyle) renderValue(counterValue int, counter *CounterStyleDescrip
 		useNegative                    bool
 	)
 	isNegative := counterValue < 0
+	originalValue := counterValue // what a fallback style has to represent
 	if isNegative {
 		vs := counter.Negative
 		if vs == ([2]pr.NamedString{}) {
@@ -221,11 +222,11 @@ func (c CounterStyle) renderValue(counterValue int, counter *CounterStyleDescrip
 		}
 	case "additive":
 		if len(counter.AdditiveSymbols) == 0 {
-			return c.RenderValue(counterValue, "decimal")
+			return c.RenderValue(originalValue, "decimal")
 		}
 		initial, ok = additive(counter.AdditiveSymbols, counterValue)
 		if !ok {
-			return c.renderValue(counterValue, c.resolveCounter(counter.fallback(), previousTypes), previousTypes)
+			return c.renderValue(originalValue, c.resolveCounter(counter.fallback(), previousTypes), previousTypes)
 		}
 	}
 
